@@ -1,3 +1,5 @@
+import ast
+
 from bloqade.geometry.dialects.grid import GridType
 from kirin import decl, ir, lowering, types
 from kirin.decl import info
@@ -5,11 +7,39 @@ from kirin.decl import info
 from ._dialect import dialect
 
 
+class TopHatCZFromPythonCall(lowering.FromPythonCall["TopHatCZ"]):
+    """The wrapper's signature allows the buffers to be given positionally; they are
+    attributes of the statement, which the default lowering only reads from keywords
+    (extra positional arguments would be dropped silently)."""
+
+    BUFFER_NAMES = ("upper_buffer", "lower_buffer")
+
+    def lower(self, stmt, state, node: ast.Call):
+        if len(node.args) > 1 + len(self.BUFFER_NAMES):
+            raise lowering.BuildError("top_hat_cz takes at most 3 positional arguments")
+
+        if len(node.args) > 1:
+            keywords = [
+                ast.keyword(arg=name, value=value)
+                for name, value in zip(self.BUFFER_NAMES, node.args[1:])
+            ]
+            node = ast.copy_location(
+                ast.Call(
+                    func=node.func,
+                    args=node.args[:1],
+                    keywords=keywords + node.keywords,
+                ),
+                node,
+            )
+
+        return super().lower(stmt, state, node)
+
+
 @decl.statement(dialect=dialect)
 class TopHatCZ(ir.Statement):
     name = "apply"
 
-    traits = frozenset({lowering.FromPythonCall()})
+    traits = frozenset({TopHatCZFromPythonCall()})
     zone: ir.SSAValue = info.argument(type=GridType[types.Any, types.Any])
     upper_buffer: float = info.attribute(default=3.0)
     lower_buffer: float = info.attribute(default=3.0)
